@@ -840,3 +840,55 @@ def meta_depth(ms):
     if not ms or ms.get("type") != "MetaModule":
         return 0
     return 1 + max([meta_depth(x) for x in ms["payload"]["project"]["modules"]] + [0])
+
+
+def failed_save_in_past(container, k=0):
+    """Give `container` (a Project or Synth) a failed save in its past: one field somewhere inside it
+    (a module's finetune - also of modules in embedded projects and of effect modules -, a sample's
+    volume, a pattern's x) is set to a value that does not fit its file field, saving is attempted and
+    fails, and the field gets its old value back.  Afterwards the object is in exactly the state it
+    was in before, except that the library once failed to write it.  Returns what was done, or None
+    when there was nothing to break / the save did not fail."""
+    targets = []
+
+    def walk_module(mod):
+        targets.append((mod, "mod_finetune", 2**40))
+        if type(mod).__name__ == "Sampler":
+            for smp in mod.samples:
+                if smp is not None:
+                    targets.append((smp, "volume", 300))
+                    break
+            eff = getattr(mod, "effect", None)
+            if eff is not None and getattr(eff, "module", None) is not None:
+                walk_module(eff.module)
+        if type(mod).__name__ == "MetaModule":
+            walk_project(mod.project)
+
+    def walk_project(proj):
+        for mod in proj.modules[1:]:
+            if mod is not None:
+                walk_module(mod)
+        for pat in proj.patterns:
+            if pat is not None and type(pat).__name__ == "Pattern":
+                targets.append((pat, "x", 2**40))
+                break
+
+    if type(container).__name__ == "Synth":
+        walk_module(container.module)
+    else:
+        walk_project(container)
+    if not targets:
+        return None
+    obj, attr, bad = targets[k % len(targets)]
+    old = getattr(obj, attr)
+    setattr(obj, attr, bad)
+    failed = None
+    try:
+        container.read()
+    except Exception as e:  # noqa: BLE001 - any refusal will do
+        failed = type(e).__name__
+    finally:
+        setattr(obj, attr, old)
+    if failed is None:
+        return None
+    return "%s.%s <- %r: save failed with %s, value restored" % (type(obj).__name__, attr, bad, failed)
